@@ -10,10 +10,17 @@ Driver for E3 (Earley model).
       → {"status":"done"|"raised"|"fuel","steps":n,"cols":[[[lhs,[sym…],dot,origin,nkids]…]…],
          "forest":[tree…],"epscycle":bool,"bound":n}
 
+  {"op":"prefix", … as "parse" …, "input":{…,"rinc":[[regexId,cell]…]}}      (INCOMPLETE mode, Model/EarleyPrefix.lean)
+     optional "stop_trees":n (stop, status "stopped", as soon as n trees have been yielded), "max_trees":n (forest cut)
+      → {"status":"done"|"raised"|"fuel"|"stopped","steps":n,"phaseA":n (steps before the end-of-input phase),
+         "cols":[…; the LAST column: [lhs,[sym…],dot,origin,nkids,incomplete?]…],"forest":[tree…] (yield order),
+         "nforest":n,"epscycle":bool,"leftcycle":bool}
+
 sym := ["lit",leaf] | ["re",id] | ["nt",name,sender|null,recipient|null]
 -/
 import Driver.IRJson
 import Model.Earley
+import Model.EarleyPrefix
 open Lean FV FV.Drv FV.Earley
 
 def jSym : ESym → Json
@@ -85,6 +92,21 @@ def runCount (c : Cfg) : Nat → M → Nat → Res × Nat
     | .next m' => runCount c fuel m' (n + 1)
     | r => (r, n + 1)
 
+/-- the prefix-mode machine, counting steps (and the steps of phase A) -/
+def runPCount (pc : PCfg) (stop : Nat) : Nat → PM → Nat → Nat → PRes × Nat × Nat × Bool
+  | 0, pm, n, a => (.next pm, n, a, false)
+  | fuel + 1, pm, n, a =>
+    match stepP pc pm with
+    | .next pm' =>
+      -- `stop` trees have been yielded: the caller of the real generator stops consuming it here (`max_trees`)
+      if stop ≠ 0 && stop ≤ pm'.m.out.length + pm'.out.length then (.next pm', n + 1, a, true)
+      else runPCount pc stop fuel pm' (n + 1) (if pm'.phaseB then a else a + 1)
+    | r => (r, n + 1, a, false)
+
+def jItemInc (s : St) (inc : Bool) : Json :=
+  Json.arr #[Json.str (ntName s.item.lhs), jRhs s.item.rhs, Json.num (JsonNumber.fromNat s.item.dot),
+             Json.num (JsonNumber.fromNat s.item.origin), Json.num (JsonNumber.fromNat s.kids.length), Json.bool inc]
+
 /-- the size of the core item space, summed over the columns, times the frame factor: the step bound
     of `Props/C06.lean` (kept in sync with `FV.Earley.stepBound`) -/
 def handle (j : Json) : Except String Json := do
@@ -131,6 +153,61 @@ def handle (j : Json) : Except String Json := do
       ("cols", Json.arr cols.toArray), ("forest", Json.arr forest.toArray),
       ("epscycle", Json.bool (hasEpsCycle c.rules)), ("leftcycle", Json.bool (hasLeftCycle c.rules)),
       ("nrules", Json.num (JsonNumber.fromNat c.rules.length))]
+  | "prefix" =>
+    let start ← j.getObjValAs? String "start"
+    let v ← variantOf (← j.getObjVal? "variant")
+    let cap := v.cap
+    let fuel ← (← j.getObjVal? "fuel").getNat?
+    let inpJ ← j.getObjVal? "input"
+    let inp ← inputOf inpJ
+    let ri ← (← inpJ.getObjVal? "rinc").getArr?
+    let riTbl ← ri.toList.mapM (fun e => do
+      let a ← natArr e
+      match a with
+      | [i, w] => pure (i, w)
+      | _ => throw "bad rinc entry")
+    let pinp : PInput := { inp := inp, rinc := fun i w => riTbl.any (fun e => e.1 == i && e.2 == w) }
+    let maxTrees := (j.getObjValAs? Nat "max_trees").toOption.getD 1000000
+    let tbl := nameTable G cap
+    let predJ ← (← j.getObjVal? "pred").getArr?
+    let predTbl ← predJ.toList.mapM (fun e => do
+      let a ← e.getArr?
+      let k ← (a[0]?.getD Json.null).getNat?
+      let x ← ntOfName tbl (← (a[1]?.getD Json.null).getStr?)
+      let alts ← (← (a[2]?.getD Json.null).getArr?).toList.mapM (fun r => do
+        (← r.getArr?).toList.mapM (symOfJson tbl))
+      for rhs in alts do
+        if !(rulesOf G cap x).contains rhs then
+          throw s!"pred: {ntName x} has no alternative {(jRhs rhs).compress} in the model"
+      pure (k, x, alts))
+    let pred : Nat → NT → List (List ESym) := fun k x =>
+      match predTbl.find? (fun e => e.1 == k && decide (e.2.1 = x)) with
+      | some e => e.2.2
+      | none => rulesOf G cap x
+    let pc := mkPCfg G v pinp start pred
+    let stop := (j.getObjValAs? Nat "stop_trees").toOption.getD 0
+    let (res, steps, stepsA, stopped) := runPCount pc stop fuel (PM.init pc) 0 0
+    let (status, pm) := match res with
+      | .done pm => ("done", pm)
+      | .raised pm => ("raised", pm)
+      | .next pm => (if stopped then "stopped" else "fuel", pm)
+    let L := pc.c.ncols - 1
+    -- the last column: after `done` the chart holds it (shortcut applied; positions as in `pm.last`); in phase B
+    -- before that `pm.last`; in phase A the ordinary states and the incomplete ones at their positions
+    let lastSts : List (St × Bool) :=
+      if status == "done" then (colAt pm.m.cols L).states.zip (pm.last.map (·.inc))
+      else if pm.phaseB then pm.last.map (fun s => (s.toSt, s.inc))
+      else (mergeInc L 0 (colAt pm.m.cols L).states pm.incs).map (fun s => (s.toSt, s.inc))
+    let cols := (List.range pm.m.cols.length).map (fun i =>
+      if i == L then Json.arr (lastSts.map (fun p => jItemInc p.1 p.2)).toArray
+      else Json.arr ((colAt pm.m.cols i).states.map jItem).toArray)
+    let outs := pm.m.out ++ pm.out
+    let forest := ((outs.flatMap collapse).take maxTrees).map jTree
+    return Json.mkObj [("status", Json.str status), ("steps", Json.num (JsonNumber.fromNat steps)),
+      ("phaseA", Json.num (JsonNumber.fromNat stepsA)),
+      ("cols", Json.arr cols.toArray), ("forest", Json.arr forest.toArray),
+      ("nforest", Json.num (JsonNumber.fromNat outs.length)),
+      ("epscycle", Json.bool (hasEpsCycle pc.c.rules)), ("leftcycle", Json.bool (hasLeftCycle pc.c.rules))]
   | _ => throw s!"unknown op {op}"
 
 def main : IO Unit := run handle
